@@ -179,6 +179,7 @@ type c13EMapping struct {
 	cands                []int  // world files found under the names locateBinaries tries, in trial order
 	truth                int    // the file REALLY loaded
 	bias                 uint64
+	fkind                int // legacy map entries: 0 named file, 1 named library (.so), 2 no name, 3 /anon_hugepage
 }
 type c13EFrame struct {
 	m    int // mapping index inside the profile
@@ -189,6 +190,7 @@ type c13ESample struct {
 	value int64
 }
 type c13EProfile struct {
+	legacy   bool  // written as a legacy text profile with a memory map (ParseMemoryMap / massageMappings path)
 	scale    int64 // +1 source, -1 base (-diff_base)
 	mappings []c13EMapping
 	samples  []c13ESample
@@ -310,7 +312,7 @@ func (w *c13EWorld) term(mode, format string, extra []string) Term {
 			for _, c := range m.cands {
 				cs = append(cs, ZI(c))
 			}
-			ms = append(ms, L(ZU(m.start), ZU(m.limit), ZU(m.offset), S(m.buildID), ZI(m.rec), L(cs...), ZI(m.truth), ZU(m.bias)))
+			ms = append(ms, L(ZU(m.start), ZU(m.limit), ZU(m.offset), S(m.buildID), ZI(m.rec), L(cs...), ZI(m.truth), ZU(m.bias), ZI(m.fkind)))
 		}
 		for _, s := range p.samples {
 			var fs []Term
@@ -319,7 +321,7 @@ func (w *c13EWorld) term(mode, format string, extra []string) Term {
 			}
 			ss = append(ss, L(L(fs...), Z(s.value)))
 		}
-		pts = append(pts, L(Z(p.scale), L(ms...), L(ss...)))
+		pts = append(pts, L(Z(p.scale), L(ms...), L(ss...), Bool(p.legacy)))
 	}
 	return L(S("e2e"), L(fts...), L(pts...), S(mode), S(format), Ss(extra))
 }
@@ -328,6 +330,14 @@ func (w *c13EWorld) term(mode, format string, extra []string) Term {
 func (w *c13EWorld) writeProfiles() ([]string, error) {
 	var paths []string
 	for pi, ep := range w.profiles {
+		if ep.legacy {
+			path, err := w.writeLegacy(pi, ep)
+			if err != nil {
+				return nil, err
+			}
+			paths = append(paths, path)
+			continue
+		}
 		p := &profile.Profile{SampleType: []*profile.ValueType{{Type: "samples", Unit: "count"}}, PeriodType: &profile.ValueType{Type: "cpu", Unit: "nanoseconds"}, Period: 1}
 		for i, m := range ep.mappings {
 			p.Mapping = append(p.Mapping, &profile.Mapping{ID: uint64(i + 1), Start: m.start, Limit: m.limit, Offset: m.offset, File: m.file, BuildID: m.buildID})
@@ -649,4 +659,38 @@ func c13EErr(err error) string {
 		s = s[:120]
 	}
 	return s
+}
+
+// writeLegacy: a Go "count" text profile (threadcreate) followed by a /proc/self/maps style memory
+// map: the REAL legacy parser, ParseMemoryMap, massageMappings and remapMappingIDs turn the map
+// entries into mappings. Addresses are written +1 (the parser steps back onto the call instruction).
+func (w *c13EWorld) writeLegacy(pi int, ep c13EProfile) (string, error) {
+	var sb strings.Builder
+	total := int64(0)
+	for _, s := range ep.samples {
+		total += s.value
+	}
+	fmt.Fprintf(&sb, "threadcreate profile: total %d\n", total)
+	for _, s := range ep.samples {
+		fmt.Fprintf(&sb, "%d @", s.value)
+		for _, fr := range s.stack {
+			fmt.Fprintf(&sb, " 0x%x", fr.addr+1)
+		}
+		sb.WriteString("\n")
+	}
+	sb.WriteString("\n--- Memory map: ---\n")
+	for i, m := range ep.mappings {
+		name := m.file
+		switch m.fkind {
+		case 2:
+			name = ""
+		case 3:
+			name = "/anon_hugepage (deleted)"
+		}
+		fmt.Fprintf(&sb, "%08x-%08x r-xp %08x 08:01 %d %s\n", m.start, m.limit, m.offset, 1000+i, name)
+		// a non-executable neighbour of the same file: skipped by the parser
+		fmt.Fprintf(&sb, "%08x-%08x rw-p %08x 08:01 %d %s\n", m.limit+0x200000, m.limit+0x201000, m.offset+0x5000, 1000+i, name)
+	}
+	path := filepath.Join(w.dir, fmt.Sprintf("prof%d.legacy.txt", pi))
+	return path, os.WriteFile(path, []byte(sb.String()), 0o644)
 }
